@@ -1,7 +1,7 @@
 """C20 - PTB and Japanese-bank text written by depccg reads back to the same tree."""
-import os, re, signal, sys, tempfile
+import os, re, shutil, signal, sys, tempfile
 import gen
-from gallina import lit, gcat, gopt, gtree, gtoken, gbool
+from c20_ser import lit, gcat, gopt, gtree, gtoken, gtokens, gbool, PREAMBLE_T
 import depccg.lang
 from depccg.cat import Category
 from depccg.tree import Tree
@@ -16,13 +16,17 @@ from depccg.grammar import guess_combinator_by_triplet, en as en_grammar
 PRE = '''From Coq Require Import List NArith Bool.
 Import ListNotations.
 Require Import Cat CatFacts Tree Ptb JaBank P_C20.
-Open Scope N_scope.
+''' + PREAMBLE_T + '''Open Scope N_scope.
 Definition PP (t : tree) (e : option text) : bool := otext_eqb (print_ptb t) e.
 Definition PJ (t : tree) (e : option text) : bool := otext_eqb (P_C20.print_ja t) e.
 Definition RP (tb : guess_table) (l : text) (e : option tree) : bool := otree_eqb (P_C20.read_ptb (guess_of tb) l) e.
 Definition RJ (l : text) (e : option (tree * list token)) : bool := ojares_eqb (P_C20.read_ja l) e.
 Definition CP (tb : guess_table) (t r : tree) : bool := tree_eqb (canon_ptb (guess_of tb) t) r.
 Definition CJ (t r : tree) (ts : list token) : bool := tree_eqb (P_C20.canon_ja t) r && tokens_eqb (P_C20.tokens_ja t) ts.
+(* one printed tree: printer string, reader result, canonical form (each large term is written once) *)
+Definition P3 (tb : guess_table) (t : tree) (l : text) (r : tree) : bool := PP t (Some l) && RP tb l (Some r) && CP tb t r.
+Definition J5 (t : tree) (l : text) (r : tree) (ts : list token) (a1 a2 : text) : bool :=
+  PJ t (Some l) && RJ l (Some (r, ts)) && CJ t r ts && RJ a1 (Some (r, ts)) && RJ a2 (Some (r, ts)).
 '''
 
 # the one symbol grammar/ja.py can emit (_unary_rule_symbol, for a unary rule whose argument is neither mod=adn nor mod=adv) that the
@@ -40,7 +44,7 @@ def _alarm(signum, frame):
     raise Hang()
 
 
-def guarded(f, *a, limit=2.0):
+def guarded(f, *a, limit=0.5):
     """run f; ('ok', value) | ('err', exception name); a run longer than `limit` seconds counts as an error (hang)"""
     old = signal.signal(signal.SIGALRM, _alarm)
     signal.setitimer(signal.ITIMER_REAL, limit)
@@ -53,6 +57,29 @@ def guarded(f, *a, limit=2.0):
     finally:
         signal.setitimer(signal.ITIMER_REAL, 0)
         signal.signal(signal.SIGALRM, old)
+
+
+class _CachedCategory:
+    """Category with a memoised parse (gen.licensed_tree re-parses the whole inventory on every call)"""
+    _memo = {}
+
+    @staticmethod
+    def parse(text):
+        c = _CachedCategory._memo.get(text)
+        if c is None:
+            c = _CachedCategory._memo[text] = Category.parse(text)
+        return c
+
+
+def cached_generator(f):
+    def g(*a, **k):
+        old = gen.Category
+        gen.Category = _CachedCategory
+        try:
+            return f(*a, **k)
+        finally:
+            gen.Category = old
+    return g
 
 
 def tree_well_typed(t):
@@ -234,7 +261,9 @@ def run(ctx):
     q = ctx.quick
     ctx.build(['P_C20.vo'], gens=('tables', 'c20'))
     ctx.theorems('P_C20')
-    tmp = tempfile.mkdtemp(prefix='c20_', dir=ctx.work)
+    # one-line files for the public readers: RAM-backed scratch directory when there is one (thousands of tiny files), else work/C20
+    tmp = tempfile.mkdtemp(prefix='c20_', dir='/dev/shm' if os.path.isdir('/dev/shm') and os.access('/dev/shm', os.W_OK) else ctx.work)
+    licensed_tree = cached_generator(gen.licensed_tree)
     counter = [0]
 
     def via_file(read, text):
@@ -275,7 +304,7 @@ def run(ctx):
         r = rng.random()
         n = rng.randint(1, 4 if q else 7)
         if r < 0.6:
-            t = gen.licensed_tree(rng, 'en', nleaves=n, full_tokens=rng.random() < 0.5)
+            t = licensed_tree(rng, 'en', nleaves=n, full_tokens=rng.random() < 0.5)
         elif r < 0.9:
             t = gen.rand_tree(rng, 'en', nleaves=n, full_tokens=rng.random() < 0.5)
         else:
@@ -295,17 +324,15 @@ def run(ctx):
         ctx.count('ptb:unary_nodes', sum(1 for n_ in all_nodes(t) if not n_.is_leaf and len(n_.children) == 1))
         ctx.count('ptb:binary_nodes', sum(1 for n_ in all_nodes(t) if len(n_.children) == 2))
         # -- correspondence: printer (exact string), reader (field by field), canonical form used by the theorem
-        add(f'PP {gtree(t)} (Some {lit(line)})', ('ptb_of', line))
         st, res = via_file(en_reader.read_ptb, line)
         if st == 'ok' and len(res) == 1 and tree_well_typed(res[0].tree):
             back = res[0].tree
             if res[0].tokens != back.tokens:
                 ctx.count('ptb:token_list_differs_from_tree_tokens')
-            tb = guess_table([back, t])
-            add(f'RP {tb} {lit(line)} (Some {gtree(back)})', ('read_ptb', 'printed', line))
-            add(f'CP {tb} {gtree(t)} {gtree(back)}', ('canon_ptb', line))
+            add(f'P3 {guess_table([back, t])} {gtree(t)} {lit(line)} {gtree(back)}', ('ptb_of + read_ptb + canon_ptb', line))
         else:
             back = None
+            add(f'PP {gtree(t)} (Some {lit(line)})', ('ptb_of', line))
             add(f'RP {guess_table([t])} {lit(line)} None', ('read_ptb', 'printed-unreadable', line, st, str(res)[:80]))
         # -- oracle (A): the line reads back to the same categories, shape and words
         if back is None:
@@ -379,7 +406,7 @@ def run(ctx):
             return 'err', r
 
         def gjares(r):
-            return f'({gtree(r[0])}, [{";".join(gtoken(tk) for tk in r[1])}])'
+            return f'({gtree(r[0])}, {gtokens(r[1])})'
 
         def ja_reader_case(line, kind):
             st, r = py_parse_ja(line)
@@ -392,7 +419,7 @@ def run(ctx):
         while made < n_ja:
             n = rng.randint(1, 4 if q else 7)
             if rng.random() < 0.65:
-                t = gen.licensed_tree(rng, 'ja', nleaves=n, full_tokens=rng.random() < 0.7)
+                t = licensed_tree(rng, 'ja', nleaves=n, full_tokens=rng.random() < 0.7)
             else:
                 t = gen.rand_tree(rng, 'ja', nleaves=n, full_tokens=rng.random() < 0.7)
             if not ja_symbols_ok(t):
@@ -407,11 +434,11 @@ def run(ctx):
             words = [normalize(l.word) for l in t.leaves]
             ctx.case(('ja', line), nontrivial=len(t.leaves) > 1)
             ctx.count('ja:trees')
-            add(f'PJ {gtree(t)} (Some {lit(line)})', ('ja_of', line))
             plain = bank_line(t)
             if plain != line:
                 ctx.obligation('harness: bank_line(t) without annotations is ja_of(t)', False, f'{plain!r} vs {line!r}')
             variants = [('printed', line), ('annotated', bank_line(t, rng, True)), ('annotated-anywhere', bank_line(t, rng, False))]
+            outcomes = []
             for kind, text in variants:
                 ctx.count(f'ja:lines:{kind}')
                 ctx.count('ja:annotation_blocks', text.count('{I') + text.count('{X'))
@@ -419,17 +446,24 @@ def run(ctx):
                 ok = st == 'ok' and len(res) == 1 and tree_well_typed(res[0].tree)
                 if ok:
                     back, toks = res[0].tree, res[0].tokens
-                    add(f'RJ {lit(text)} (Some {gjares((back, toks))})', ('read_ja', kind, text))
-                    if kind == 'printed':
-                        add(f'CJ {gtree(t)} {gtree(back)} [{";".join(gtoken(tk) for tk in toks)}]', ('canon_ja', line))
+                    outcomes.append((kind, text, gtree(back), gtokens(toks)))
                     d = same_tree(t, back, normalize, symbols=True)
                     if d is None and [tk.get('surf') for tk in toks] != words:
                         d = f'token list {[tk.get("surf") for tk in toks]!r} is not the word list {words!r}'
                     if d:
                         ctx.fail('ja_roundtrip', f'read_ccgbank on the {kind} line of t differs from t: {d}; line {text!r}', {'format': 'ja', 'line': text, 'kind': kind})
                 else:
-                    add(f'RJ {lit(text)} None', ('read_ja', kind + '-unreadable', text, st, str(res)[:80]))
+                    outcomes.append((kind, text, None, None))
                     ctx.fail('ja_unreadable', f'read_ccgbank fails on the {kind} bank line {text!r} ({st}: {str(res)[:100]})', {'format': 'ja', 'line': text, 'kind': kind})
+            if all(o[2] is not None for o in outcomes) and len({(o[2], o[3]) for o in outcomes}) == 1:
+                add(f'J5 {gtree(t)} {lit(line)} {outcomes[0][2]} {outcomes[0][3]} {lit(outcomes[1][1])} {lit(outcomes[2][1])}',
+                    ('ja_of + read_ccgbank (printed, annotated, annotated-anywhere) + canon_ja', line, outcomes[1][1], outcomes[2][1]))
+            else:
+                add(f'PJ {gtree(t)} (Some {lit(line)})', ('ja_of', line))
+                for kind, text, gt, gk in outcomes:
+                    add(f'RJ {lit(text)} ' + (f'(Some ({gt}, {gk}))' if gt is not None else 'None'), ('read_ja', kind, text))
+                if outcomes[0][2] is not None:
+                    add(f'CJ {gtree(t)} {outcomes[0][2]} {outcomes[0][3]}', ('canon_ja', line))
             if made <= 3:
                 ctx.sample({'ja_line': line, 'annotated': variants[1][1]})
 
@@ -464,14 +498,15 @@ def run(ctx):
     finally:
         set_lang('en')
 
-    bad = ctx.coq_cases('c20', PRE, cases, chunk=150, describe=lambda i: descr[i])
+    shutil.rmtree(tmp, ignore_errors=True)
+    bad = ctx.coq_cases('c20', PRE, cases, chunk=80, describe=lambda i: descr[i])
     for i in (bad or [])[:10]:
         ctx.notes.append(f'model/implementation disagreement on {descr[i]!r}')
     ctx.trusted += ['hand-written models coq/Ptb.v (ptb_of, _parse_ptb) and coq/JaBank.v (ja_of, normalize, _JaCCGLineReader), tied by the correspondence cases of this run',
                     'Category.parse = the model of C05 (coq/Cat.v, tied by check C05)',
                     'translators translate/gen_tables.py (normalize table, ja reader `combinators`, punctuations, cat_split class) and translate/gen_c20.py (rule symbols of grammar/ja.py)',
                     'file iteration / line.strip() / "ID" lines of read_ptb and read_ccgbank are outside the models (exercised through temp files by correspondence and oracle)',
-                    'harness: tree_well_typed() classifies a returned Tree with an ill-typed category slot as an error; a reader run longer than 2 s counts as an error (hang)']
+                    'harness: tree_well_typed() classifies a returned Tree with an ill-typed category slot as an error; a reader run longer than 0.5 s counts as an error (hang)']
     return ctx.finish(
         level='proof',
         rule='trees from gen.licensed_tree / gen.rand_tree over the shipped en (PTB) and ja (bank) lexicons with words redrawn inside the quantifier '
